@@ -97,18 +97,23 @@ def eqLikeHandler (c : Ctx) (m : TraitMeta) (me : TraitId) (mine : TraitId → B
 
 /-! ### Eq / Copy standing alone (marker impls) -/
 
-def markerHandler (c : Ctx) (m : TraitMeta) (me partner : TraitId) (boundTrait superTrait : String) : Res (List Item) := do
+def markerHandler (c : Ctx) (m : TraitMeta) (me partner : TraitId) (boundTrait superTrait : String)
+    (scanWithPartner : Bool) : Res (List Item) := do
   let d := c.d
   let hasPartner := c.traits partner
   let ta ← boundTypeFromMeta { flag := true, unsafe_ := false, bound := !hasPartner } m
-  if hasPartner then pure []
+  -- `Eq` next to `PartialEq` leaves the variant and field attributes to the `PartialEq` scan (which reads `Eq`
+  -- attributes as its own); `Copy` next to `Clone` still refuses a `Copy` attribute on a variant or a field.
+  if hasPartner && !scanWithPartner then pure []
   else do
     let _ ← mapRes (fun v => do
         if d.kind == .enum then variantNoAttr c (· == me) v
         let _ ← mapRes (fun f => fromAttrs c.F c.traits (· == me) noFieldAttrFromMeta () f.attrs) v.fields
         pure ()) d.variants
-    let types := d.variants.flatMap fun v => v.fields.map (·.ty)
-    pure [{ trait := me.name, preds := boundPreds ta.bound d.generics boundTrait types [superTrait] }]
+    if hasPartner then pure []
+    else
+      let types := d.variants.flatMap fun v => v.fields.map (·.ty)
+      pure [{ trait := me.name, preds := boundPreds ta.bound d.generics boundTrait types [superTrait] }]
 
 /-! ### Clone -/
 
@@ -507,11 +512,11 @@ def handlerFor (c : Ctx) (t : TraitId) (ms : List TraitMeta) : Res (List Item) :
     match t with
     | .debug => debugHandler c m
     | .clone => cloneHandler c m
-    | .copy => markerHandler c m .copy .clone "::core::marker::Copy" "::core::clone::Clone"
+    | .copy => markerHandler c m .copy .clone "::core::marker::Copy" "::core::clone::Clone" true
     | .partialEq =>
       eqLikeHandler c m .partialEq (fun t => t == .partialEq || (c.traits .eq && t == .eq))
         "::core::cmp::PartialEq" (some (.eq, "Eq"))
-    | .eq => markerHandler c m .eq .partialEq "::core::cmp::PartialEq" "::core::cmp::PartialEq"
+    | .eq => markerHandler c m .eq .partialEq "::core::cmp::PartialEq" "::core::cmp::PartialEq" false
     | .partialOrd =>
       if c.traits .ord then do
         let _ ← boundTypeFromMeta { flag := true, unsafe_ := false, bound := false } m
